@@ -4,6 +4,27 @@
 use std::sync::atomic::{AtomicBool, AtomicU64, Ordering};
 use std::sync::Mutex;
 
+thread_local! {
+    /// the watchdog slot of this worker thread (set by `run_batch`)
+    static MY_BEAT: std::cell::Cell<Option<(usize, usize)>> = const { std::cell::Cell::new(None) };
+}
+static BEATS: [AtomicU64; 256] = [const { AtomicU64::new(0) }; 256];
+static BATCH_T0_MS: AtomicU64 = AtomicU64::new(0);
+
+fn now_ms() -> u64 {
+    std::time::SystemTime::now().duration_since(std::time::UNIX_EPOCH).map(|d| d.as_millis() as u64).unwrap_or(0)
+}
+
+/// A run that consists of many sub-runs (a sweep, a fault enumeration) tells the watchdog that
+/// it is alive after each of them. Reads the wall clock for the watchdog only.
+pub fn heartbeat() {
+    MY_BEAT.with(|m| {
+        if let Some((w, _)) = m.get() {
+            BEATS[w % 256].store(now_ms().saturating_sub(BATCH_T0_MS.load(Ordering::Relaxed)), Ordering::Relaxed);
+        }
+    });
+}
+
 pub struct Batch {
     pub seed: u64,
     pub engine: u64,
@@ -24,17 +45,17 @@ pub fn run_batch<L: Send + Default>(
     // the batch until the driver's time-out. The wall clock is read here only; it never reaches
     // a run. Slot w holds (run index + 1, start in ms since batch start) of worker w.
     let nworkers = b.workers.max(1);
-    let slots: Vec<(AtomicU64, AtomicU64)> = (0..nworkers).map(|_| (AtomicU64::new(0), AtomicU64::new(0))).collect();
-    let t0 = std::time::Instant::now();
+    let slots: Vec<AtomicU64> = (0..nworkers).map(|_| AtomicU64::new(0)).collect();
+    BATCH_T0_MS.store(now_ms(), Ordering::Relaxed);
     let limit_ms: u64 = std::env::var("DSIM_RUN_LIMIT_S").ok().and_then(|s| s.parse().ok()).unwrap_or(180) * 1000;
     std::thread::scope(|s| {
         s.spawn(|| {
             while !done.load(Ordering::Relaxed) {
                 std::thread::sleep(std::time::Duration::from_millis(250));
-                let now = t0.elapsed().as_millis() as u64;
-                for (w, (k1, start)) in slots.iter().enumerate() {
+                let now = now_ms().saturating_sub(BATCH_T0_MS.load(Ordering::Relaxed));
+                for (w, k1) in slots.iter().enumerate() {
                     let k1 = k1.load(Ordering::Relaxed);
-                    let st = start.load(Ordering::Relaxed);
+                    let st = BEATS[w % 256].load(Ordering::Relaxed);
                     if k1 != 0 && now.saturating_sub(st) > limit_ms {
                         let k = k1 - 1;
                         eprintln!(
@@ -51,6 +72,7 @@ pub fn run_batch<L: Send + Default>(
             .map(|w| {
                 let (slots, next, stop, locals, work) = (&slots, &next, &stop, &locals, &work);
                 s.spawn(move || {
+                    MY_BEAT.with(|m| m.set(Some((w, 0))));
                     let mut local = L::default();
                     loop {
                         if stop.load(Ordering::Relaxed) {
@@ -61,10 +83,10 @@ pub fn run_batch<L: Send + Default>(
                             break;
                         }
                         let rs = crate::rng::mix(b.seed, b.engine, k);
-                        slots[w].1.store(t0.elapsed().as_millis() as u64, Ordering::Relaxed);
-                        slots[w].0.store(k + 1, Ordering::Relaxed);
+                        heartbeat();
+                        slots[w].store(k + 1, Ordering::Relaxed);
                         let r = work(k, rs, &mut local);
-                        slots[w].0.store(0, Ordering::Relaxed);
+                        slots[w].store(0, Ordering::Relaxed);
                         if r {
                             stop.store(true, Ordering::Relaxed);
                         }
